@@ -80,3 +80,406 @@ class Freshness:
         if isinstance(e, ast.IfExp):
             return self.aliases(e.body) | self.aliases(e.orelse)
         return set()
+
+
+# ======================================================================================================================
+# May-alias data flow (used by C12-A1 / C12-A2): which parameters (or receiver fields) may a local name share storage with,
+# at every statement, over every path - branches are merged, loops are iterated to a fixpoint, helper functions of the
+# repository are summarised (which parameters they may return a view of, which parameters they write into).
+# ======================================================================================================================
+from .. import sym as _sym
+
+WHOLE, PART = "whole", "part"
+IN_WHOLE, IN_PART = "in-whole", "in-part"     # a NEW container (list / tuple / comprehension) whose elements are such values
+WRITABLE = (WHOLE, PART)
+INPLACE_METHODS = {"sort", "fill", "normalize", "resize", "put", "itemset", "append", "extend", "clear", "pop", "remove",
+                   "insert", "update", "reverse", "setflags", "partition", "byteswap", "setfield", "__setitem__", "__iadd__",
+                   "__isub__", "__imul__", "__itruediv__", "setdefault", "popitem", "add", "discard"}
+FIRST_ARG_WRITERS = {"copyto", "put", "place", "putmask", "fill_diagonal", "shuffle", "put_along_axis"}
+VIEW_ATTRS = {"T", "real", "imag", "flat", "mT"}
+
+
+def _downgrade(s):
+    return frozenset((r, PART) for r, k in s if k in WRITABLE)
+
+
+def _elem(s):
+    """what an element (integer index, iteration, unpacking) of a value with these aliases may alias"""
+    m = {WHOLE: PART, PART: PART, IN_WHOLE: WHOLE, IN_PART: PART}
+    return frozenset((r, m[k]) for r, k in s)
+
+
+def _wrap(s):
+    """a new container holding such values"""
+    m = {WHOLE: IN_WHOLE, PART: IN_PART, IN_WHOLE: IN_PART, IN_PART: IN_PART}
+    return frozenset((r, m[k]) for r, k in s)
+
+
+class Sink:
+    __slots__ = ("node", "root", "kind", "how")
+
+    def __init__(self, node, root, kind, how):
+        self.node, self.root, self.kind, self.how = node, root, kind, how
+
+
+class MayAlias:
+    """one instance per run: caches the summaries of the helper functions"""
+
+    def __init__(self, repo, fresh):
+        self.repo, self.fresh = repo, fresh
+        self._summary = {}
+        self._active = set()
+
+    # ------------------------------------------------------------------ callee resolution
+    def callee(self, call, mod, cls):
+        """(module, class or None, FunctionDef, number of leading parameters bound implicitly) of a call to a repository function"""
+        f = call.func
+        if isinstance(f, ast.Name):
+            r = self.repo.resolve_func(mod.name, f.id)
+            if r and r[1] is not None:
+                return r[0], None, r[1], 0
+            return None
+        if isinstance(f, ast.Attribute) and isinstance(f.value, ast.Name):
+            base = f.value.id
+            target_cls = None
+            via_instance = False
+            if base in ("self", "cls") and cls is not None:
+                target_cls, target_mod, via_instance = cls, mod, base == "self"
+            else:
+                r = self.repo.resolve(mod.name, base)
+                if r and r[0] == "class":
+                    target_mod = self.repo.modules[r[1]]
+                    target_cls = target_mod.classes.get(r[2])
+                elif r and r[0] == "module" and r[1] in self.repo.modules:
+                    rr = self.repo.resolve_func(r[1], f.attr)
+                    if rr and rr[1] is not None:
+                        return rr[0], None, rr[1], 0
+                    return None
+            if target_cls is None:
+                return None
+            meths = self.repo.methods(target_mod, target_cls)
+            if f.attr not in meths:
+                return None
+            m, fn, owner = meths[f.attr]
+            decos = {au.src(d) for d in fn.decorator_list}
+            if "property" in decos:
+                return None
+            if "staticmethod" in decos:
+                skip = 0
+            elif "classmethod" in decos:
+                skip = 1
+            else:
+                skip = 1 if (via_instance or base == "cls") else 0
+            return m, owner, fn, skip
+        return None
+
+    def summary(self, mod, cls, fn):
+        """(set of parameter names a returned value may alias, {parameter name: how} written into) of a repository function"""
+        key = id(fn)
+        if key in self._summary:
+            return self._summary[key]
+        if key in self._active:
+            return set(), {}
+        self._active.add(key)
+        try:
+            a = Analysis(self, mod, cls, fn, {p: frozenset({(p, WHOLE)}) for p in au.params(fn)})
+            a.run()
+            rets = {r for r, _ in a.returned}
+            writes = {}
+            for s in a.sinks:
+                if s.kind == PART or s.how[0] != "aug-name" or True:
+                    writes.setdefault(s.root, s.how[1])
+            res = (rets, writes)
+        finally:
+            self._active.discard(key)
+        self._summary[key] = res
+        return res
+
+
+class Analysis:
+    def __init__(self, ma, mod, cls, fn, init, field_roots=None, props=None):
+        self.ma, self.mod, self.cls, self.fn = ma, mod, cls, fn
+        self.init = dict(init)
+        self.field_roots = field_roots or {}     # field name -> root label, for `self.<field>` reads
+        self.props = props or {}                 # property name -> field name
+        self.sinks, self._seen = [], set()
+        self.returned = set()
+
+    # ------------------------------------------------------------------ expressions
+    def aliases(self, e, st):
+        if e is None:
+            return frozenset()
+        if isinstance(e, ast.Name):
+            return st.get(e.id, frozenset())
+        if isinstance(e, ast.Starred):
+            return self.aliases(e.value, st)
+        if isinstance(e, ast.NamedExpr):
+            return self.aliases(e.value, st)
+        if isinstance(e, ast.Subscript):
+            base = self.aliases(e.value, st)
+            sl = e.slice
+            is_slice = isinstance(sl, ast.Slice) or (isinstance(sl, ast.Tuple) and any(isinstance(x, ast.Slice) for x in sl.elts))
+            return base if is_slice else _elem(base)
+        if isinstance(e, ast.Attribute):
+            if au.is_self_attr(e) and "self" not in st:
+                f = self.props.get(e.attr, e.attr)
+                if f in self.field_roots:
+                    return frozenset({(self.field_roots[f], WHOLE)})
+                return frozenset()
+            base = self.aliases(e.value, st)
+            return base if e.attr in VIEW_ATTRS else _downgrade(base)
+        if isinstance(e, ast.IfExp):
+            return self.aliases(e.body, st) | self.aliases(e.orelse, st)
+        if isinstance(e, ast.BoolOp):
+            out = frozenset()
+            for v in e.values:
+                out |= self.aliases(v, st)
+            return out
+        if isinstance(e, (ast.Tuple, ast.List, ast.Set)):
+            out = frozenset()
+            for v in e.elts:
+                out |= self.aliases(v.value, st) if isinstance(v, ast.Starred) else _wrap(self.aliases(v, st))
+            return out
+        if isinstance(e, (ast.ListComp, ast.GeneratorExp, ast.SetComp)):
+            st2 = dict(st)
+            for g in e.generators:
+                self._bind_iter(g.target, g.iter, st2)
+            return _wrap(self.aliases(e.elt, st2))
+        if isinstance(e, ast.Call):
+            return self._call_aliases(e, st)
+        return frozenset()
+
+    def _call_aliases(self, e, st):
+        t = au.call_tail(e)
+        arrays_only = lambda al: frozenset(x for x in al if x[1] in WRITABLE)     # an array built from a list of arrays is new
+        if t == "Vec" and len(e.args) == 1 and not e.keywords:
+            return arrays_only(self.aliases(e.args[0], st)) if self.ma.fresh.vec_is_view else frozenset()
+        if t in VIEW_CALLS:
+            if e.args and isinstance(e.func, ast.Attribute) and au.chain(e.func.value) in (["np"], ["numpy"]):
+                return arrays_only(self.aliases(e.args[0], st))
+            if isinstance(e.func, ast.Attribute):
+                return arrays_only(self.aliases(e.func.value, st))
+            if e.args:
+                return arrays_only(self.aliases(e.args[0], st))
+        if t in ("zip", "enumerate", "reversed", "iter"):
+            # transparent for iteration: the items are (tuples of) elements of the arguments
+            out = frozenset()
+            for a in e.args:
+                al = self.aliases(a, st)
+                out |= frozenset(x for x in al if x[1] not in WRITABLE) | _wrap(_elem(frozenset(x for x in al if x[1] in WRITABLE)))
+            return out
+        if t in ("list", "tuple", "sorted", "set", "frozenset") and isinstance(e.func, ast.Name):
+            out = frozenset()
+            for a in e.args:
+                al = self.aliases(a, st)
+                out |= frozenset(x for x in al if x[1] not in WRITABLE) | _wrap(_elem(frozenset(x for x in al if x[1] in WRITABLE)))
+            return out
+        if t in ALLOC_CALLS:
+            return frozenset()
+        c = self.ma.callee(e, self.mod, self.cls)
+        if c is not None:
+            m, owner, fn, skip = c
+            rets, _ = self.ma.summary(m, owner, fn)
+            out = frozenset()
+            for pname, arg in self._bind_args(e, fn, skip):
+                if pname in rets:
+                    out |= self.aliases(arg, st)
+            return out
+        return frozenset()
+
+    @staticmethod
+    def _bind_args(call, fn, skip):
+        ps = [x.arg for x in fn.args.posonlyargs + fn.args.args][skip:]
+        out = []
+        for i, a in enumerate(call.args):
+            if isinstance(a, ast.Starred):
+                for p in ps[i:]:
+                    out.append((p, a.value))
+                break
+            if i < len(ps):
+                out.append((ps[i], a))
+            elif fn.args.vararg:
+                out.append((fn.args.vararg.arg, a))
+        names = set(ps) | {x.arg for x in fn.args.kwonlyargs}
+        for k in call.keywords:
+            if k.arg in names:
+                out.append((k.arg, k.value))
+        return out
+
+    # ------------------------------------------------------------------ statements
+    def _sink(self, node, roots, how):
+        for r, k in sorted(roots):
+            if k not in WRITABLE:
+                continue
+            key = (id(node), r, how[0])
+            if key not in self._seen:
+                self._seen.add(key)
+                self.sinks.append(Sink(node, r, k, how))
+
+    def _expr_sinks(self, node, st):
+        """writes performed by the calls of an expression / simple statement"""
+        for c in au.calls(node):
+            f = c.func
+            if isinstance(f, ast.Attribute) and f.attr in INPLACE_METHODS:
+                self._sink(c, self.aliases(f.value, st), ("method", f"in-place method `{au.src(c)}`"))
+            for k in c.keywords:
+                if k.arg == "out":
+                    self._sink(c, self.aliases(k.value, st), ("out", f"`{au.src(c)}` stores its result into the array (out=)"))
+            if au.call_tail(c) in FIRST_ARG_WRITERS and c.args:
+                self._sink(c, self.aliases(c.args[0], st), ("writer", f"`{au.src(c)}` writes into its first argument"))
+            cal = self.ma.callee(c, self.mod, self.cls)
+            if cal is not None:
+                m, owner, fn, skip = cal
+                _, writes = self.ma.summary(m, owner, fn)
+                if writes:
+                    for pname, arg in self._bind_args(c, fn, skip):
+                        if pname in writes:
+                            self._sink(c, self.aliases(arg, st), ("helper", f"`{au.src(c)}`: the helper writes into this argument ({writes[pname]})"))
+
+    def _bind_iter(self, target, it, st):
+        al = _elem(self.aliases(it, st))
+        if isinstance(it, ast.Call) and au.call_tail(it) in ("zip", "enumerate") and isinstance(target, (ast.Tuple, ast.List)):
+            # items are tuples of elements: unpacking them gives the elements
+            for sub in target.elts:
+                self._bind_names(sub, al, st)
+            return
+        self._bind_names(target, al, st)
+
+    def _bind_names(self, target, al, st):
+        if isinstance(target, ast.Name):
+            st[target.id] = al
+        elif isinstance(target, ast.Starred):
+            self._bind_names(target.value, al, st)
+        elif isinstance(target, (ast.Tuple, ast.List)):
+            for sub in target.elts:
+                self._bind_names(sub, _elem(al), st)
+
+    def _store_target(self, t, node, st, what):
+        if isinstance(t, (ast.Tuple, ast.List)):
+            for x in t.elts:
+                self._store_target(x, node, st, what)
+        elif isinstance(t, ast.Starred):
+            self._store_target(t.value, node, st, what)
+        elif isinstance(t, ast.Subscript):
+            self._sink(node, self.aliases(t.value, st), ("item", f"`{au.src(t)} {what}` writes into the array"))
+        elif isinstance(t, ast.Attribute):
+            if au.is_self_attr(t) and "self" not in st:
+                return
+            self._sink(node, self.aliases(t.value, st), ("attr", f"`{au.src(t)} {what}` changes the object"))
+
+    def stmt(self, s, st):
+        if isinstance(s, (ast.FunctionDef, ast.AsyncFunctionDef, ast.ClassDef)):
+            return st
+        if isinstance(s, ast.If):
+            self._expr_sinks(s.test, st)
+            a = self.block(s.body, dict(st))
+            b = self.block(s.orelse, dict(st))
+            return self._merge(a, b)
+        if isinstance(s, (ast.For, ast.AsyncFor)):
+            self._expr_sinks(s.iter, st)
+            cur = dict(st)
+            for _ in range(3):
+                body_in = dict(cur)
+                self._bind_iter(s.target, s.iter, body_in)
+                cur = self._merge(cur, self.block(s.body, body_in))
+            return self.block(s.orelse, cur)
+        if isinstance(s, ast.While):
+            cur = dict(st)
+            for _ in range(3):
+                self._expr_sinks(s.test, cur)
+                cur = self._merge(cur, self.block(s.body, dict(cur)))
+            return self.block(s.orelse, cur)
+        if isinstance(s, (ast.With, ast.AsyncWith)):
+            st = dict(st)
+            for it in s.items:
+                self._expr_sinks(it.context_expr, st)
+                if it.optional_vars is not None:
+                    for n in au.assigned_names(it.optional_vars):
+                        st[n] = frozenset()
+            return self.block(s.body, st)
+        if isinstance(s, ast.Try):
+            body = self.block(s.body, dict(st))
+            cur = self._merge(st, body)
+            outs = [self.block(s.orelse, dict(body))]
+            for h in s.handlers:
+                hs = dict(cur)
+                if h.name:
+                    hs[h.name] = frozenset()
+                outs.append(self.block(h.body, hs))
+            out = outs[0]
+            for o in outs[1:]:
+                out = self._merge(out, o)
+            return self.block(s.finalbody, out)
+        if hasattr(ast, "Match") and isinstance(s, ast.Match):
+            outs = [self.block(c.body, dict(st)) for c in s.cases] + [st]
+            out = outs[0]
+            for o in outs[1:]:
+                out = self._merge(out, o)
+            return out
+        # ---- simple statements
+        self._expr_sinks(s, st)
+        if isinstance(s, ast.Return):
+            self.returned |= set(self.aliases(s.value, st))
+            return st
+        if isinstance(s, ast.AugAssign):
+            t = s.target
+            if isinstance(t, ast.Name):
+                roots = frozenset((r, k) for r, k in st.get(t.id, frozenset()) if k == WHOLE)
+                self._sink(s, roots, ("aug-name", f"augmented assignment `{au.src(s)}` updates the array in place"))
+            else:
+                if isinstance(t, ast.Attribute) and au.is_self_attr(t) and "self" not in st:
+                    # `self.f op= e` evaluates self.f in place when it is an array
+                    self._sink(s, frozenset(x for x in self.aliases(t, st) if x[1] == WHOLE), ("aug-field", f"`{au.src(s)}` updates the array in place"))
+                else:
+                    self._store_target(t, s, st, au.src(s)[len(au.src(t)):].strip().split("=")[0] + "= ...")
+            return st
+        if isinstance(s, (ast.Assign, ast.AnnAssign)):
+            if getattr(s, "value", None) is None:
+                return st
+            for t in au.assign_targets(s):
+                self._store_target(t, s, st, "= ...")
+            st = dict(st)
+            pairs = list(_sym.split_assign(s))
+            if pairs:
+                vals = [(n, self.aliases(v, st)) for n, v in pairs]
+                for n, al in vals:
+                    st[n] = al
+            else:
+                val = self.aliases(s.value, st)
+                for t in au.assign_targets(s):
+                    if isinstance(t, ast.Name):
+                        st[t.id] = val
+                    elif isinstance(t, (ast.Tuple, ast.List)):
+                        for sub in t.elts:
+                            self._bind_names(sub, _elem(val), st)
+            for n in au.walk(s.value):
+                if isinstance(n, ast.NamedExpr):
+                    st[n.target.id] = self.aliases(n.value, st)
+            return st
+        if isinstance(s, ast.Delete):
+            for t in s.targets:
+                if isinstance(t, ast.Subscript):
+                    self._sink(s, self.aliases(t.value, st), ("item", f"`{au.src(s)}` removes items"))
+            return st
+        if isinstance(s, ast.Expr):
+            for n in au.walk(s.value):
+                if isinstance(n, ast.NamedExpr):
+                    st = dict(st)
+                    st[n.target.id] = self.aliases(n.value, st)
+        return st
+
+    @staticmethod
+    def _merge(a, b):
+        out = dict(a)
+        for k, v in b.items():
+            out[k] = out.get(k, frozenset()) | v
+        return out
+
+    def block(self, body, st):
+        for s in body or []:
+            st = self.stmt(s, st)
+        return st
+
+    def run(self):
+        self.block(self.fn.body, dict(self.init))
+        return self
